@@ -3,12 +3,15 @@ package main
 import (
 	"bytes"
 	"encoding/hex"
+	"errors"
 	"fmt"
 	"math/big"
 	"strings"
+	"time"
 
 	"cosmossdk.io/math"
 	sdk "github.com/cosmos/cosmos-sdk/types"
+	sdkerrors "github.com/cosmos/cosmos-sdk/types/errors"
 
 	ophosttypes "github.com/initia-labs/OPinit/x/ophost/types"
 )
@@ -252,7 +255,13 @@ func leafOf(o L1Op) []byte {
 
 // c03Build generates the history of one case.  fullLeaves: which leaves of A get the whole
 // perturbation list (nil = all); the others get two random perturbations.
-func c03Build(x *c03Run, nA int, fullLeaves map[int]bool, rep *Report) {
+type c03Trees struct {
+	A, A2, copyOn2, B, C *ProposedTree
+	period               int64
+}
+
+// c03Setup: two bridges, funded escrows, the five outputs described at the top of this file.
+func c03Setup(x *c03Run, nA int, rep *Report) c03Trees {
 	sc := x.sc
 	e, r := sc.Env, sc.R
 	period := []int64{7 * sec, sec, 2*sec + 500000000}[r.Intn(3)]
@@ -283,6 +292,14 @@ func c03Build(x *c03Run, nA int, fullLeaves map[int]bool, rep *Report) {
 	C.Idx = 3
 	x.propose(1, 3, 30, C.Root, leavesOf(C), period)
 	rep.Hist(fmt.Sprintf("tree-size:%02d", nA))
+	return c03Trees{A, A2, copyOn2, B, C, period}
+}
+
+func c03Build(x *c03Run, nA int, fullLeaves map[int]bool, rep *Report) {
+	sc := x.sc
+	e, r := sc.Env, sc.R
+	ts := c03Setup(x, nA, rep)
+	A, A2, copyOn2, B, C, period := ts.A, ts.A2, ts.copyOn2, ts.B, ts.C, ts.period
 
 	claim := func(pt *ProposedTree, i int) L1Op {
 		return sc.Claim(pt, i, e.User(uint64(5+r.Intn(3))).Str)
@@ -562,17 +579,7 @@ func c03Effect(c *L1Case, prev, cur Ov, o L1Op) string {
 // than 2^64 (by plain bank transfers) and a claim of amount + 2^64 is not rejected merely for
 // lack of funds.
 func c03RunTwice(seed uint64, id int, build L1Builder, rep *Report) *L1Case {
-	mk := func() *L1Scenario {
-		sc := NewL1Scenario(seed, id, nil)
-		var cs sdk.Coins
-		for _, d := range sc.Denoms {
-			cs = append(cs, sdk.NewCoin(d, math.NewIntFromBigInt(c03Huge())))
-		}
-		sc.Env.Fund(sc.Env.User(3).Addr, cs.Sort())
-		sc.Case.Bals = nil
-		sc.Case.Snapshot()
-		return sc
-	}
+	mk := func() *L1Scenario { return c03NewScenario(seed, id) }
 	sc := mk()
 	build(sc)
 	sc2 := mk()
@@ -586,6 +593,103 @@ func c03RunTwice(seed uint64, id int, build L1Builder, rep *Report) *L1Case {
 		}
 	}
 	return sc2.Case
+}
+
+func c03NewScenario(seed uint64, id int) *L1Scenario {
+	sc := NewL1Scenario(seed, id, nil)
+	var cs sdk.Coins
+	for _, d := range sc.Denoms {
+		cs = append(cs, sdk.NewCoin(d, math.NewIntFromBigInt(c03Huge())))
+	}
+	sc.Env.Fund(sc.Env.User(3).Addr, cs.Sort())
+	sc.Case.Bals = nil
+	sc.Case.Snapshot()
+	return sc
+}
+
+// ---- handler level: a rejected claim must leave no effect even WITHOUT the transaction rollback ----
+// The chain-level monitor above sees every message through execAtomic (CacheContext + recover =
+// baseapp), so writes made by a handler before it returns an error are invisible to it.  The
+// property says a perturbed claim "fails with no effect"; here the real handler is called
+// directly on a branch of the state that is KEPT when it returns an error: the full
+// observation block, including Claimed(bridge, leaf) of the honest and of the perturbed claim,
+// must be unchanged, and the honest claim submitted next on that same branch must be paid.
+// Rejections caused by the payout itself (bank: insufficient funds) are excluded: the current
+// code records the claim before paying and legitimately relies on the rollback there; the
+// escrows are funded so that this does not occur for honest amounts.
+func finalizeMsg(o L1Op) *ophosttypes.MsgFinalizeTokenWithdrawal {
+	return &ophosttypes.MsgFinalizeTokenWithdrawal{Sender: o.Sender, BridgeId: o.Bridge, OutputIndex: o.Idx,
+		WithdrawalProofs: o.Proofs, From: o.From, To: o.To, Sequence: o.Seq, Amount: coinOf(o.Denom, o.Amt), Version: o.Version, StorageRoot: o.SRoot, LastBlockHash: o.BHash}
+}
+
+// callHandler calls the message server directly (no rollback); a panic counts as a rejection.
+func callHandler(e *L1Env, ctx sdk.Context, o L1Op) (err error) {
+	defer func() {
+		if r := recover(); r != nil {
+			err = fmt.Errorf("panic: %v", r)
+		}
+	}()
+	_, err = e.Msg.FinalizeTokenWithdrawal(ctx, finalizeMsg(o))
+	return err
+}
+
+func c03HandlerLevel(rep *Report, seed uint64, sizes []int) {
+	nth := 0 // running number of the perturbation: distinct replay files
+	for k, nA := range sizes {
+		sc := c03NewScenario(seed*7000+uint64(k), 9000+k)
+		x := &c03Run{sc: sc, stored: map[[2]uint64]*c03Stored{}}
+		ts := c03Setup(x, nA, NewReport("scratch", 0, ""))
+		sc.Advance(ts.period + sec) // every output final
+		e := sc.Env
+		base := e.Ctx.WithBlockTime(time.Unix(0, sc.Now).UTC()).WithBlockHeight(int64(sc.Height))
+		for i := range ts.A.Tree.Ws {
+			v := sc.Claim(ts.A, i, e.User(uint64(5+sc.R.Intn(3))).Str)
+			v = sc.op(v)
+			honestLeaf := leafOf(v)
+			for _, p := range c03Perturb(sc, v, ts.A, ts.A2, ts.copyOn2, i) {
+				if sameClaim(p.op, v) {
+					continue
+				}
+				o := sc.op(p.op)
+				nth++
+				sc.reg(o.Sender, o.To)
+				tr := &L1Track{Accts: sc.Case.Track.Accts, Denoms: sc.Case.Track.Denoms, Bridges: sc.Case.Track.Bridges,
+					Claims: [][2]string{{fmt.Sprint(v.Bridge), hex.EncodeToString(honestLeaf)}}}
+				if l := leafOf(o); l != nil {
+					tr.Claims = append(tr.Claims, [2]string{fmt.Sprint(o.Bridge), hex.EncodeToString(l)})
+					if o.Bridge != v.Bridge {
+						tr.Claims = append(tr.Claims, [2]string{fmt.Sprint(v.Bridge), hex.EncodeToString(l)})
+					}
+				}
+				br, _ := base.CacheContext() // never written back: every perturbation starts from the same state
+				e.Ctx = br
+				before := c03StatePart(e.L1Obs(tr, ExecResult{}))
+				err := callHandler(e, br, o)
+				human := func() []string {
+					e.Ctx = base
+					return append(l1OpsHuman(sc.Case.Ops), "-- handler called directly, state kept on error: "+p.desc, l1OpsHuman([]L1Op{o})[0])
+				}
+				switch {
+				case err == nil:
+					rep.Hist("handler:perturbed-accepted") // judged by the chain-level monitor
+				case errors.Is(err, sdkerrors.ErrInsufficientFunds):
+					rep.Hist("handler:bank-failure-excluded")
+				default:
+					rep.Hist("handler:rejected")
+					after := c03StatePart(e.L1Obs(tr, ExecResult{}))
+					if before != after {
+						rep.Violate(Violation{Case: 9000 + k, Step: nth, What: "the handler rejected a perturbed claim (" + p.desc + ": " + err.Error() + ") but left an effect in the state it was given", Sig: "C03:rejected-claim-left-effect", Ops: human()})
+					} else if herr := callHandler(e, br, v); herr != nil {
+						rep.Violate(Violation{Case: 9000 + k, Step: nth, What: "after the handler rejected a perturbed claim (" + p.desc + ") the honest claim is refused on the same state: " + herr.Error(), Sig: "C03:rejected-claim-left-effect", Ops: append(human(), l1OpsHuman([]L1Op{v})[0])})
+					} else {
+						rep.Hist("handler:honest-claim-after-rejection:OK")
+					}
+				}
+				e.Ctx = base
+				rep.Ops++
+			}
+		}
+	}
 }
 
 // 2^64 + 10^6
@@ -662,6 +766,13 @@ func genC03(seed uint64, tier string, outdir string) *Report {
 		}
 		run(nModel+k, nA, func(r *Rng) map[int]bool { return nil }, false)
 	}
+	// handler level (no rollback): every perturbation of every leaf
+	hs := []int{1, 2, 3, 5, 8, 13}
+	if tier == "thorough" {
+		hs = []int{1, 2, 3, 4, 5, 6, 7, 8, 9, 13, 16, 21, 27, 33, 40}
+	}
+	c03HandlerLevel(rep, seed, hs)
+	rep.Notes = append(rep.Notes, fmt.Sprintf("handler level: trees of %v leaves, every perturbation of every leaf called directly on a kept branch", hs))
 	rep.Notes = append(rep.Notes, fmt.Sprintf("%d model cases (replayed by the Coq model), %d monitor-only cases with every perturbation on every leaf of trees up to 40 leaves", nModel, nMon))
 	writeShards(outdir, "C03", l1CaseHeader, "run_l1case", "l1case", texts, 16, rep)
 	return rep
